@@ -525,3 +525,143 @@ func idEqualityGuardsNil(fn *ssa.Function, errIdx int) string {
 func stripLoadOfLocal(v ssa.Value) ssa.Value {
 	return v
 }
+
+// ------------------------------------------------------------------ C10 cipher
+
+// originCall follows v back to the call that produced it (through Extract of
+// module function results, phis excluded), returning the callee name and args.
+func (c *Ctx) originCall(v ssa.Value, depth int) (*ssa.Call, bool) {
+	if depth > 5 {
+		return nil, false
+	}
+	switch x := v.(type) {
+	case *ssa.Call:
+		return x, true
+	case *ssa.MakeInterface:
+		return c.originCall(x.X, depth+1)
+	case *ssa.ChangeInterface:
+		return c.originCall(x.X, depth+1)
+	case *ssa.Extract:
+		cl, ok := x.Tuple.(*ssa.Call)
+		if !ok {
+			return nil, false
+		}
+		callee := cl.Common().StaticCallee()
+		if callee == nil || !c.P.InModule(callee) {
+			return nil, false
+		}
+		// the callee's return operand at this index (all returns must agree on the origin)
+		var res *ssa.Call
+		for _, b := range callee.Blocks {
+			for _, in := range b.Instrs {
+				if r, ok := in.(*ssa.Return); ok && x.Index < len(r.Results) {
+					oc, ok := c.originCall(r.Results[x.Index], depth+1)
+					if !ok {
+						return nil, false
+					}
+					if res != nil && calleeName(res.Common()) != calleeName(oc.Common()) {
+						return nil, false
+					}
+					res = oc
+				}
+			}
+		}
+		return res, res != nil
+	}
+	return nil, false
+}
+
+// CipherWiring implements R-ORIGIN for C10.
+func (c *Ctx) CipherWiring() []core.Ob {
+	var obs []core.Ob
+	mk := func(key, want string, fn *ssa.Function) core.Ob {
+		o := core.Ob{Rule: "R-ORIGIN", Key: "cipher:" + key, Want: want, Armed: true, Status: core.OK}
+		if fn != nil {
+			o.Pos, o.Func = c.P.Pos(fn.Pos()), core.FnName(fn)
+		}
+		return o
+	}
+	sc := c.Fn("net.(*Conn).SetCipher")
+	o := mk("SetCipher-wiring", "SetCipher installs the decrypt stream (2nd parameter) on the reader side and the encrypt stream (1st parameter) on the writer side, both over the socket", sc)
+	if sc == nil {
+		o.Status, o.Got = core.Violated, "net.(*Conn).SetCipher not found"
+		return []core.Ob{o}
+	}
+	// stores into fields named S of cipher.StreamReader / cipher.StreamWriter
+	got := map[string]ssa.Value{}
+	for _, b := range sc.Blocks {
+		for _, in := range b.Instrs {
+			st, ok := in.(*ssa.Store)
+			if !ok {
+				continue
+			}
+			fa, ok := st.Addr.(*ssa.FieldAddr)
+			if !ok {
+				continue
+			}
+			n, ok := types.Unalias(deref(fa.X.Type())).(*types.Named)
+			if !ok || n.Obj().Pkg() == nil || n.Obj().Pkg().Path() != "crypto/cipher" {
+				continue
+			}
+			stt := n.Underlying().(*types.Struct)
+			got[n.Obj().Name()+"."+stt.Field(fa.Field).Name()] = st.Val
+		}
+	}
+	if len(sc.Params) < 3 {
+		o.Status, o.Got = core.Violated, "unexpected signature"
+	} else {
+		enc, dec := ssa.Value(sc.Params[1]), ssa.Value(sc.Params[2])
+		switch {
+		case got["StreamReader.S"] != dec:
+			o.Status, o.Got = core.Violated, "the reader side does not use the decrypt stream parameter"
+		case got["StreamWriter.S"] != enc:
+			o.Status, o.Got = core.Violated, "the writer side does not use the encrypt stream parameter"
+		case !derivesFromField(got["StreamReader.R"], "Socket") || !derivesFromField(got["StreamWriter.W"], "Socket"):
+			o.Status, o.Got = core.Violated, "the cipher streams are not layered over the connection's socket"
+		}
+	}
+	obs = append(obs, o)
+	// call sites
+	n := 0
+	for _, fn := range c.Funcs() {
+		for _, ci := range callsIn(fn, func(nm string, _ *ssa.CallCommon) bool { return strings.HasSuffix(nm, "/net.(Conn).SetCipher") }) {
+			n++
+			s := mk(fmt.Sprintf("call-site:%s#%d", core.FnName(fn), n), "SetCipher is called with (CFB8 encrypter, CFB8 decrypter) built over the same block cipher and IV", fn)
+			s.Pos = c.P.Pos(ci.Pos())
+			args := ci.Common().Args
+			e, ok1 := c.originCall(args[1], 0)
+			d, ok2 := c.originCall(args[2], 0)
+			switch {
+			case !ok1 || !ok2:
+				s.Status, s.Got = core.Violated, "cannot trace the stream arguments to their constructors"
+			case !strings.HasSuffix(calleeName(e.Common()), "CFB8.NewCFB8Encrypt"):
+				s.Status, s.Got = core.Violated, "the first (encrypt) argument is built by "+calleeName(e.Common())
+			case !strings.HasSuffix(calleeName(d.Common()), "CFB8.NewCFB8Decrypt"):
+				s.Status, s.Got = core.Violated, "the second (decrypt) argument is built by "+calleeName(d.Common())
+			default:
+				ea, da := e.Common().Args, d.Common().Args
+				if len(ea) != 2 || len(da) != 2 || !sameOrigin(ea[0], da[0]) || !sameOrigin(ea[1], da[1]) {
+					s.Status, s.Got = core.Violated, "the two streams are not built over the same (block, iv) values"
+				}
+			}
+			obs = append(obs, s)
+		}
+	}
+	if n < 2 {
+		obs = append(obs, core.Ob{Rule: "R-ORIGIN", Key: "cipher:call-sites", Status: core.Violated, Armed: true, Want: "both ends (bot and server/auth) enable encryption through SetCipher", Got: fmt.Sprintf("%d call sites", n)})
+	}
+	return obs
+}
+
+func sameOrigin(a, b ssa.Value) bool {
+	if a == b || sameValue(a, b) {
+		return true
+	}
+	// the same value boxed twice
+	if ma, ok := a.(*ssa.MakeInterface); ok {
+		if mb, ok := b.(*ssa.MakeInterface); ok {
+			return sameOrigin(ma.X, mb.X)
+		}
+	}
+	return false
+}
